@@ -148,6 +148,10 @@ class World:
         self.fields = {}
         self.bools = {}
         self.fresh = {}
+        self.axioms = []          # global facts relating the type tests of one object
+        self.typefacts = {}       # object key -> {type name: Bool}
+        self.is_subtype = None    # set by the comparison (type hierarchy of the program)
+        self.ev_types = {}        # event key -> result type declared on the reference side
 
     def field(self, sym, idx, ty, view=None):
         """field `idx` of an unknown object seen through static type `view` (views of unrelated types are
@@ -168,7 +172,33 @@ class World:
     def fact(self, key):
         if key not in self.bools:
             self.bools[key] = z3.Bool(key)
+            self._relate(key, self.bools[key])
         return self.bools[key]
+
+    def _relate(self, key, b):
+        """type tests of one object are not independent: a subtype test implies the supertype test, tests for
+        unrelated struct types exclude each other, and an i31 is no struct at all"""
+        if key.startswith("isptr!"):
+            _, obj, ty = key.split("!", 2)
+            facts = self.typefacts.setdefault(obj, {})
+            for t2, b2 in facts.items():
+                if t2 == "#i31":
+                    self.axioms.append(z3.Not(z3.And(b, b2)))
+                elif self.is_subtype is not None:
+                    if self.is_subtype(ty, t2):
+                        self.axioms.append(z3.Implies(b, b2))
+                    elif self.is_subtype(t2, ty):
+                        self.axioms.append(z3.Implies(b2, b))
+                    else:
+                        self.axioms.append(z3.Not(z3.And(b, b2)))
+            facts[ty] = b
+        elif key.startswith("isi31!"):
+            obj = key.split("!", 1)[1]
+            facts = self.typefacts.setdefault(obj, {})
+            for t2, b2 in facts.items():
+                if t2 != "#i31":
+                    self.axioms.append(z3.Not(z3.And(b, b2)))
+            facts["#i31"] = b
 
 
 def vkey(v):
@@ -237,6 +267,8 @@ class Exec:
             raise Budget("time budget")
         self.solver.push()
         self.solver.add(*pc)
+        if self.w.axioms:
+            self.solver.add(*self.w.axioms)
         r = self.solver.check()
         m = self.solver.model() if r == z3.sat else None
         self.solver.pop()
@@ -256,7 +288,17 @@ class Exec:
             return Fn(e["fn"])
         n = e["v"]
         if n in st.env:
-            return st.env[n]
+            v = st.env[n]
+            t = e.get("t")
+            if self.p.ir == "lir" and isinstance(v, Sym) and isinstance(t, dict) and "id" in t \
+                    and v.ty != t["id"] and not (isinstance(v.ty, str) and self.p.is_subtype(v.ty, t["id"])):
+                # LIR types are erased at function boundaries (`any`), uses carry the precise type and the WASM
+                # lowering inserts a cast from it.  On the reference side the annotation is taken as true.
+                if self.role == "ref":
+                    st.pc.append(self.w.fact("isptr!%s!%s" % (v.key, t["id"])))
+                    st.model = None
+                return Sym(v.key, t["id"])
+            return v
         return Poison(n)
 
     def as_int(self, v, what):
@@ -282,6 +324,11 @@ class Exec:
         if isinstance(a, Str) and isinstance(b, Str):
             # identical literals are one global; distinct literals are distinct objects
             return z3.BoolVal(a.s == b.s)
+        for x, y in ((a, b), (b, a)):
+            if isinstance(x, Sym) and isinstance(y, I31):
+                # an unknown reference equals an i31 iff it is an i31 with that payload
+                return z3.And(self.w.fact("isi31!%s" % x.key),
+                              z3.SignExt(1, z3.Extract(30, 0, z3.BitVec(x.key + "#i31val", 32))) == y.t)
         if isinstance(a, Fn) and isinstance(b, Fn):
             return z3.BoolVal(a.name == b.name)
         conc = (Obj, Str, Fn)
@@ -298,6 +345,15 @@ class Exec:
             return z3.Bool("poison!%s!eq" % self.role)
         ka, kb = sorted([vkey(a), vkey(b)])
         return self.w.fact("refeq!%s!%s" % (ka, kb))
+
+    def str_eq(self, a, b):
+        """string equality is by content (WASM: $__Str$eq, TS: compares the text)"""
+        if isinstance(a, Str) and isinstance(b, Str):
+            return z3.BoolVal(a.s == b.s)
+        if vkey(a) == vkey(b):
+            return z3.BoolVal(True)
+        ka, kb = sorted([vkey(a), vkey(b)])
+        return self.w.fact("streq!%s!%s" % (ka, kb))
 
     # ------------------------------------------------------------------ running
     def run(self, fname, args, pc0=(), model0=None):
@@ -555,12 +611,14 @@ class Exec:
         if isinstance(v, Sym):
             t = ty if isinstance(ty, str) else (ty.get("id") if "id" in ty else "any")
             view = v.ty if isinstance(v.ty, str) else None
-            if view is not None:
-                # the tag slot (index 0) of a boxed variant is the same slot seen through the enum type
+            if idx == 0:
+                # the tag slot (index 0) of a boxed variant is one slot, whether it is read through the enum
+                # type, through a variant subtype or through an untyped (`any`) reference
                 root = view
-                while idx == 0 and self.p.parent_of(root):
+                while root is not None and self.p.parent_of(root):
                     root = self.p.parent_of(root)
-                view = root
+                if root is None or root == "any" or root in self.p.enum_types:
+                    view = "#tag"
             return self.w.field(v, idx, t, view)
         if isinstance(v, Poison):
             return Poison(v.name + ".f%d" % idx)
@@ -622,7 +680,9 @@ class Exec:
         b = self.ev(s["e2"], st)
         n = s["n"]
         if op in ("EQ", "NE") and not (isinstance(a, (Int, Poison)) and isinstance(b, (Int, Poison))):
-            e = self.ref_eq(a, b)
+            is_str = any(isinstance(v, Str) or (isinstance(v, Sym) and v.ty == "_Str") for v in (a, b)) or \
+                any(isinstance(x.get("t"), dict) and x["t"].get("id") == "_Str" for x in (s["e1"], s["e2"]))
+            e = self.str_eq(a, b) if is_str else self.ref_eq(a, b)
             st.env[n] = Int(z3.If(e if op == "EQ" else z3.Not(e), BV(1), BV(0)))
             return None
         x = self.as_int(a, op)
@@ -729,6 +789,7 @@ class Exec:
             st.stack = []
             self.finish(st, "panic")
             return "done"
+        self.w.ev_types.setdefault("ev%d:%s" % (idx, name), rts)
         if s["rc"] is not None:
             st.env[s["rc"]] = self.w.mk("ev%d:%s" % (idx, name), rts)
         return None
@@ -826,6 +887,7 @@ def compare_function(name, progA, progB, bounds, enter=False, timeout_s=20, igno
             return {"status": "skipped", "why": "signature changed (%d vs %d parameters)" % (len(fa["ptypes"]), len(fb["ptypes"]))}
         by_name = True
     world = World()
+    world.is_subtype = progB.is_subtype
     solver = z3.Solver()
     exA = Exec(progA, world, "ref", enter, bounds, solver)
     exB = Exec(progB, world, "new", enter, bounds, solver)
@@ -865,6 +927,8 @@ def compare_function(name, progA, progB, bounds, enter=False, timeout_s=20, igno
             chk.push()
             chk.add(*pb.pc)
             chk.add(d)
+            if world.axioms:
+                chk.add(*world.axioms)
             r = chk.check()
             if r == z3.sat:
                 m = chk.model()
